@@ -289,3 +289,47 @@ Example C05_schemes_nonvacuous :
   gen_items_program GenSchemes.schemes (esize c05_ex) false CastInt64 c05_ex = Some (compile_items_program false CastInt64 c05_ex) /\
   (exists p, compile_bytes false CastInt64 c05_ex = Some p /\ p_consts p = c05_ex_pool).
 Proof. split; [reflexivity|]. split; [vm_compute; reflexivity|]. eexists. split; vm_compute; reflexivity. Qed.
+
+(* ---- lines to add to Props/C05.v (GenVMSteps: how vm/vm.go reads the bytecode) ---- *)
+Require X.BC.VMSteps X.gen.GenVMSteps X.Bridge.BrVMSteps.
+
+(* `switch op`: every opcode of vm/opcodes.go has exactly one case in the current vm/vm.go, there is no
+   case for anything else *)
+Theorem C05_dispatch_covers_opcodes :
+  forallb (fun n => match VMSteps.lookup_case n (VMSteps.v_cases GenVMSteps.vm_src) with Some _ => true | None => false end)
+          GenOpcodes.opcode_names = true
+  /\ forallb (fun c => existsb (String.eqb (fst c)) GenOpcodes.opcode_names) (VMSteps.v_cases GenVMSteps.vm_src) = true
+  /\ BrVMSteps.nodupb (map fst (VMSteps.v_cases GenVMSteps.vm_src)) = true.
+Proof. exact BrVMSteps.dispatch_covers_opcodes. Qed.
+Print Assumptions C05_dispatch_covers_opcodes.
+
+(* what the loop reads at vm.pp from vm.bytecode / vm.constants / program.Locations of a program the
+   structural verifier decodes is what the IR instruction at that offset carries (opcode name, operand
+   as raw number or pool constant, location): the model's inline operands ARE the pool lookups *)
+Theorem C05_source_reads_are_ir_operands :
+  forall p C q i l,
+    Forall (fun b => 0 <= b < 256)%Z (p_bytes p) -> decode p = DOk C -> fetch C q = Some (i, l) ->
+    VMSteps.reads_at (p_consts p) (p_locs p) 0 (p_bytes p) q i l.
+Proof. exact BrVMSteps.source_reads_are_ir_operands. Qed.
+Print Assumptions C05_source_reads_are_ir_operands.
+
+(* the regenerated body of vm.arg(), run on those bytes after `vm.ip++`, returns the number the operand
+   view of the IR instruction describes, and advances vm.ip by 2 *)
+Theorem C05_arg_body_returns_described_operand :
+  forall fe cfg env view bytes p C s i l pp st sc m tr lc,
+    bytes = p_bytes p ->
+    Forall (fun b => 0 <= b < 256)%Z (p_bytes p) -> decode p = DOk C ->
+    fetch C (pc s) = Some (i, l) -> VMSteps.view_of i <> VMSteps.VwNone -> (Z.of_nat (pc s) + 1 < max_of KInt)%Z ->
+    exists k,
+      VMSteps.run_method fe cfg env view bytes (BrVMSteps.method_body "arg") [] (VMSteps.mkG (pc s + 1) pp st sc m tr lc None)
+      = VMSteps.GOk (VMSteps.GU16 k) (VMSteps.mkG (pc s + 1 + 2) pp st sc m tr lc None)
+      /\ VMSteps.view_describes (p_consts p) k i.
+Proof. exact BrVMSteps.arg_body_returns_described_operand. Qed.
+Print Assumptions C05_arg_body_returns_described_operand.
+
+Example C05_vmsteps_nonvacuous :
+  match BrVMSteps.run_ex_prog with
+  | Some p => forallb (fun b => (0 <=? b)%Z && (b <? 256)%Z) (p_bytes p) = true /\ decode p = DOk BrVMSteps.run_ex_code
+  | None => False
+  end.
+Proof. exact BrVMSteps.run_ex_prog_decodes. Qed.
